@@ -686,27 +686,33 @@ def probe(ctx):
 
 
 def search(ctx, hints):
-    """the probe already differentiates the real objects; nothing model-specific to add beyond replaying gate-rule hints
-    against a direct finite-difference of apply_gate"""
+    """the probe already differentiates the real objects; additionally evaluate the adjoint identity of the gate rules
+    (theorem applyGate_vjp / applyControlled_vjp) directly in numpy on the index tuples of the disagreeing ops, with unitary gates"""
     import numqi
     st = numqi.sim.state
-    for d in hints[:30]:
+    rng = np.random.default_rng(0)
+    for d in hints[:40]:
         t = d['op'].split(' ')
-        if t[1] != 'gg':
-            continue
         try:
-            n = int(t[2]); idx = [int(x) for x in t[3].split(';')]
-            U = np.array([complex(*map(int, e.split(','))) for e in t[4].split(';')]).reshape(2 ** len(idx), -1)
-            rng = np.random.default_rng(0)
+            if t[1] == 'gg':
+                n = int(t[2]); idx = tuple(int(x) for x in t[3].split(';')); ctrl = None
+            elif t[1] == 'cg':
+                n = int(t[2]); ctrl = set(int(x) for x in t[3].split(';')); idx = tuple(int(x) for x in t[4].split(';'))
+            else:
+                continue
+            U = rand_unitary_gint(rng, 2 ** len(idx))
             psi = rg(rng, 2 ** n, 2); g = rg(rng, 2 ** n, 2); dU = rg(rng, U.shape, 2); dpsi = rg(rng, 2 ** n, 2)
-            out = st.apply_gate(psi, U, idx)
-            _, g_in, opg = st.apply_gate_grad(psi.conj(), g, U, idx)     # fed the true conj(psi_in) via unitary-free identity
-            lhs = np.vdot(g, st.apply_gate(psi, dU, idx) + st.apply_gate(dpsi, U, idx))
-            # the rule's op_grad uses the un-applied conj state; evaluate the operator part with the true input state
-            tmp_qc = st.apply_gate(psi.conj(), np.eye(U.shape[0]), idx)
-            rhs = np.vdot(st.apply_gate_grad(st.apply_gate(psi.conj(), np.linalg.inv(U.T) if abs(np.linalg.det(U)) > 0 else U, idx), g, U, idx)[2], dU) + np.vdot(g_in, dpsi)
-            if abs(lhs - rhs) > 1e-9 * max(1, abs(lhs)):
-                ctx.fail('gate-rule-adjoint', f'apply_gate_grad is not the adjoint of apply_gate: <g,dF>={lhs} vs {rhs} for n={n}, index={idx}',
-                         dict(op='apply_gate_grad', n=n, index=idx, U=t[4]))
+            if ctrl is None:
+                F = lambda q, M: st.apply_gate(q, M, idx)
+                qc, g_in, opg = st.apply_gate_grad(F(psi, U).conj(), g, U, idx)
+                dF = F(psi, dU) + F(dpsi, U)
+            else:
+                F = lambda q, M: st.apply_control_n_gate(q, M, ctrl, idx)
+                qc, g_in, opg = st.apply_control_n_gate_grad(F(psi, U).conj(), g, U, ctrl, idx)
+                dF = (F(psi, U + dU) - F(psi, U)) + F(dpsi, U)
+            lhs = np.vdot(g, dF); rhs = np.vdot(opg, dU) + np.vdot(g_in, dpsi)
+            if lhs != rhs or not np.array_equal(qc, psi.conj()):
+                ctx.fail('gate-rule-adjoint', f'backward rule is not the adjoint of the gate: <g,dF>={lhs} vs <op_grad,dU>+<q0_grad,dpsi>={rhs} (n={n}, controls={ctrl}, index={idx})',
+                         dict(op=t[1], n=n, controls=sorted(ctrl) if ctrl else None, index=list(idx), U=gl(U), psi=gl(psi), g=gl(g), dU=gl(dU), dpsi=gl(dpsi)))
         except Exception:
             continue
